@@ -108,6 +108,12 @@ def run(ctx):
         cov = cfg_load.run_growth(ctx)   # growth: configuration loading semantics (spec/ConfigLoad.tla)
         if cov:
             ctx.coverage["config_loading"] = cov
+        # growth: scan-based configuration file selection + raw traffic log (spec/ScanSelect.tla, spec/RawLog.tla); notes only
+        try:
+            from checks import grow_scan
+            ctx.coverage["scan_selection_and_rawlog"] = grow_scan.run_growth(ctx)
+        except Exception as e:   # a failing growth run is a machinery problem of the informing part only
+            ctx.notes.append("scan/rawlog growth failed: %s" % str(e)[:300])
 
 
 def _run_main(ctx):
